@@ -3,6 +3,7 @@ Tie A on the transformer's callbacks, and the three-way oracle deferred / immedi
 import json
 import operator
 import os
+import struct
 
 import common as C
 import suite as S
@@ -13,7 +14,53 @@ SIZES = {"quick": (3000, 4), "thorough": (60000, 7)}
 class MadxSuite(S.Suite):
     name = "madx"
     worker = "w_madx.py"
-    skip_keys = ("impl", "hist", "op", "tokens")
+    skip_keys = ("impl", "hist", "op", "tokens", "stmt_tokens", "plain", "elems", "updates")
+
+
+def model_outcome(v):
+    """a value of the driver's statement op in the form `w_madx.outcome` gives the implementation's numbers:
+    `float.hex()` of the double, "nan" for every NaN"""
+    if v is None:
+        return ["exc", "KeyError"]
+    if v == "nan":
+        return ["ok", "nan"]
+    return ["ok", struct.unpack("<d", bytes.fromhex(v))[0].hex()]
+
+
+def compare_assign(o, m, counts):
+    """statement lists: the real `MadxEval` (deferred through the manager / immediate, re-run from scratch) against
+    `runDef` + `DState.update` / `runImm` of XModel/MadxAssign.lean, step by step and variable by variable"""
+    impl = o["impl"]["assign"]
+    if "bad-op" in m or "assign" not in m:
+        return {"text": o["text"], "model": m.get("bad-op", "no answer")}
+    a = m["assign"]
+    if not a.get("parsed"):
+        return {"text": o["text"], "model": "parseStmt rejects a statement lark accepts"}
+    if sorted(set(a["targets"])) != sorted(set(impl["targets"])):
+        return {"text": o["text"], "model_targets": a["targets"], "impl_targets": impl["targets"]}
+    counts["assign_lines"] += 1
+    scope = a["wo"] and a["updates_outside_assigned"]
+    counts["assign_in_scope"] += bool(scope)
+    for k, (si, sm) in enumerate(zip(impl["steps"], a["steps"])):
+        for side in ("imm", "def"):
+            if side == "def" and not scope:
+                continue        # list order is the manager's order on WellOrdered lists only (C19_assign_push_model)
+            got = sm[side]
+            if "exc" in got:
+                if got["exc"] == "unsupported":
+                    counts["assign_unsupported"] += 1
+                    continue
+                if side == "def" and got["exc"] == "ZeroDivisionError":
+                    continue
+                return {"text": o["text"], "step": k, "side": side, "model": got, "impl": si[side]}
+            for t in impl["targets"]:
+                counts["assign_values"] += 1
+                if model_outcome(got["ok"].get(t)) != list(si[side][t]):
+                    return {"text": o["text"], "step": k, "side": side, "variable": t,
+                            "model": model_outcome(got["ok"].get(t)), "impl": si[side][t]}
+    if len(a["steps"]) < len(impl["steps"]):
+        return {"text": o["text"], "model": "fewer steps than the implementation made"}
+    return None
 
 
 TIE_A = r'''
@@ -86,10 +133,17 @@ def run(prop, tier, seed, replay=None):
                 stats_total[k] = stats_total.get(k, 0) + val
         failures += [(pref, fl) for fl in res["failures"] if fl["property"] == prop]
     diffs, nlines = [], 0
+    adiffs, acounts = [], {"assign_lines": 0, "assign_in_scope": 0, "assign_values": 0, "assign_unsupported": 0}
     if ok:
         for pref in prefixes:
             C.run_driver("madx", pref + ".ops.jsonl", pref + ".model.jsonl")
             for o, m in zip(S.load_lines(pref + ".ops.jsonl"), S.load_lines(pref + ".model.jsonl")):
+                if o.get("stmt_tokens") is not None:
+                    nlines += 1
+                    d = compare_assign(o, m, acounts)
+                    if d is not None:
+                        adiffs.append(d)
+                    continue
                 if o.get("tokens") is None:
                     continue
                 nlines += 1
@@ -108,6 +162,9 @@ def run(prop, tier, seed, replay=None):
             v.broken("Tie A: a grammar alias is not bound to the Python operator the model assumes", {"obligation": tie_problems, "observed": tie})
         if diffs:
             v.broken("correspondence: the model's parser and lark build different trees", {"first_divergence": diffs[0], "n": len(diffs)})
+        if adiffs:
+            v.broken("correspondence: statement lists — the variables MadxEval assigns (deferred through the manager / immediate) "
+                     "differ from runDef / runImm of the model", {"first_divergence": adiffs[0], "n": len(adiffs)})
     samples = [o["text"] for o in S.load_lines(prefixes[-1] + ".ops.jsonl")[:10]]
     C.proof_coverage(v, thms, generated_obligations=len(tie["callbacks"]) + 1,
                      generated_ok=len(tie["callbacks"]) + 1 - len(tie_problems),
@@ -117,7 +174,11 @@ def run(prop, tier, seed, replay=None):
                        "rule": "strings derived from calc_grammar to depth %d (sums, products, powers with ^ and **, unary signs, every NUMBER form, "
                                "dotted names, element->attribute in item and attribute mode, one- and two-argument calls) plus the fixed list; "
                                "non-trivial = lark parses the string" % depth,
-                       "samples": samples, "traces_validated_against_impl": nlines, "correspondence_divergences": len(diffs),
+                       "samples": samples, "traces_validated_against_impl": nlines, "correspondence_divergences": len(diffs) + len(adiffs),
+                       "statement_lists": dict(acounts, rule="assign_in_scope = lines on which the driver's WellOrdered test (hypothesis of "
+                                               "C19_assign_deferred_eq_immediate / _follows_updates) holds; deferred values are compared on those, "
+                                               "immediate values on all; assign_unsupported = steps using a function the driver's float algebra "
+                                               "does not have (hypot, fmod, complex powers)"),
                        "oracle_failures": len(failures), "tie_a": tie, "input_distribution": dict(sorted(stats_total.items())),
                        "lean_problems": lean_problems})
     v.assumptions = ["lark's lexer; the functions module and ** are used on arguments where they do not raise ZeroDivisionError (DivOnly)"]
